@@ -16,6 +16,56 @@ fn write_lines(path: &std::path::Path, lines: &[String]) {
     }
 }
 
+/// Run the cases; if the harness's own reference code panics (the implementation behaved in a way the
+/// shadow cannot follow — that is itself a failure of the property, not of the run), fall back to
+/// evaluating block by block (a single line, or one `B … E` history) so that exactly the offending
+/// block is reported as an oracle failure and everything else is still evaluated.
+fn run_resilient(prop: &str, cases: &[String]) -> util::RunOut {
+    if let Some(out) = util::guarded(|| props::run(prop, cases)) {
+        return out;
+    }
+    let mut total = util::RunOut::default();
+    let mut i = 0;
+    while i < cases.len() {
+        let mut j = i + 1;
+        if cases[i].starts_with("B ") {
+            while j < cases.len() && !cases[j].starts_with("B ") {
+                j += 1;
+                if cases[j - 1] == "E" || cases[j - 1].starts_with("E ") {
+                    break;
+                }
+            }
+        }
+        let block = &cases[i..j];
+        match util::guarded(|| props::run(prop, block)) {
+            Some(out) if out.impl_lines.len() == block.len() && out.oracle_lines.len() == block.len() => {
+                total.impl_lines.extend(out.impl_lines);
+                total.oracle_lines.extend(out.oracle_lines);
+                total.stats.evaluations += out.stats.evaluations;
+                total.stats.oracle_fail += out.stats.oracle_fail;
+                total.stats.nontrivial.extend(out.stats.nontrivial);
+                for (k, v) in out.stats.hist {
+                    *total.stats.hist.entry(k).or_insert(0) += v;
+                }
+                for smp in out.stats.samples {
+                    total.stats.sample(&smp);
+                }
+            }
+            _ => {
+                for _ in block {
+                    total.push(
+                        "harness-panic".to_string(),
+                        Err("the reference (shadow) evaluation of this case panicked: the implementation behaved in a way the reference cannot follow".to_string()),
+                    );
+                }
+                total.stats.bump("harness-panic");
+            }
+        }
+        i = j;
+    }
+    total
+}
+
 fn main() {
     let args: Vec<String> = std::env::args().collect();
     if args.len() < 5 {
@@ -59,7 +109,7 @@ fn main() {
     };
     let dir = std::path::Path::new(&outdir);
     std::fs::create_dir_all(dir).unwrap();
-    let out = props::run(prop, &cases);
+    let out = run_resilient(prop, &cases);
     assert_eq!(out.impl_lines.len(), cases.len(), "one impl line per case line");
     assert_eq!(out.oracle_lines.len(), cases.len(), "one oracle line per case line");
     write_lines(&dir.join("cases.txt"), &cases);
